@@ -123,7 +123,7 @@ func (c *SpecCtx) resolveType(ty string) types.Type {
 	if i := strings.Index(ty, "."); i >= 0 {
 		pn, name := ty[:i], ty[i+1:]
 		for _, imp := range c.pkg.Imports() {
-			if imp.Name() == pn {
+			if imp.Name() == pn || c.e.W.Aliases[c.pkg.Path()][pn] == imp.Path() {
 				if obj := imp.Scope().Lookup(name); obj != nil {
 					if tn, ok := obj.(*types.TypeName); ok {
 						return tn.Type()
@@ -392,6 +392,15 @@ func (c *SpecCtx) ident(name string) TV {
 			return tv
 		}
 	}
+	// captured variables of a closure under verification: current content of the captured cell
+	if c.owner != nil && c.owner == c.e.fc {
+		for _, fv := range c.e.fn.FreeVars {
+			if fv.Name() == name {
+				pt := fv.Type().Underlying().(*types.Pointer)
+				return TV{c.e.load(c.heap, locOfRef(c.e.val(fv).(Sc).T, pt.Elem())), pt.Elem()}
+			}
+		}
+	}
 	// package scope
 	if obj := c.pkg.Scope().Lookup(name); obj != nil {
 		return c.object(obj)
@@ -508,7 +517,7 @@ func (c *SpecCtx) sel(n *ESel) TV {
 			}
 			if !found {
 				for _, imp := range c.pkg.Imports() {
-					if imp.Name() == id.Name {
+					if imp.Name() == id.Name || c.e.W.Aliases[c.pkg.Path()][id.Name] == imp.Path() {
 						obj := imp.Scope().Lookup(n.F)
 						if obj == nil {
 							c.fail("%s.%s not found", id.Name, n.F)
@@ -756,6 +765,18 @@ func (c *SpecCtx) call(n *ECall) TV {
 	case "deref":
 		a := c.eval(n.Args[0])
 		return c.structValue(a)
+	case "fresh": // fresh(x): x (pointer, map or slice) designates memory allocated during this call
+		a := c.eval(n.Args[0])
+		var ref Term
+		switch v := a.V.(type) {
+		case SliceV:
+			ref = v.Base
+		case Sc:
+			ref = v.T
+		default:
+			c.fail("fresh() of composite value")
+		}
+		return TV{Sc{not(app(SBool, "ref.old", app(SInt, "ref.root", ref)))}, mathBool}
 	case "typeis": // typeis(x, "pkg.T") dynamic type test on interface
 		a := c.eval(n.Args[0])
 		s, ok := n.Args[1].(*EStr)
@@ -791,6 +812,9 @@ func (c *SpecCtx) call(n *ECall) TV {
 	if m, ok := c.e.W.Contracts.Macros[c.pkg.Path()+"::"+name]; ok {
 		return c.expandMacro(m, evalArgs())
 	}
+	if sf, ok := c.e.W.Contracts.SpecFns[c.pkg.Path()+"::"+name]; ok {
+		return c.specFnApp(c.pkg.Path(), sf, evalArgs())
+	}
 	// type conversion to a named type, or a package-level pure function
 	if obj := c.pkg.Scope().Lookup(name); obj != nil {
 		switch o := obj.(type) {
@@ -821,7 +845,7 @@ func (c *SpecCtx) methodOrQualifiedCall(s *ESel, args []Expr) TV {
 			}
 			if !found {
 				for _, imp := range c.pkg.Imports() {
-					if imp.Name() == id.Name {
+					if imp.Name() == id.Name || c.e.W.Aliases[c.pkg.Path()][id.Name] == imp.Path() {
 						obj := imp.Scope().Lookup(s.F)
 						switch o := obj.(type) {
 						case *types.Func:
@@ -844,6 +868,9 @@ func (c *SpecCtx) methodOrQualifiedCall(s *ESel, args []Expr) TV {
 	recv := c.eval(s.X)
 	if recv.T == nil {
 		c.fail("method call on untyped value")
+	}
+	if tv, ok := c.atomicLoad(recv, s.F); ok {
+		return tv
 	}
 	obj, _, _ := types.LookupFieldOrMethod(recv.T, true, c.pkg, s.F)
 	if obj == nil {
@@ -949,4 +976,64 @@ func (e *Enc) pureApp(key string, args []Value, rt types.Type, h *HeapState, hea
 	}
 	v, _ := unflatten(rt, out)
 	return v
+}
+
+// specFnApp applies a package-level uninterpreted spec function.
+func (c *SpecCtx) specFnApp(pkgPath string, sf *GhostFn, args []TV) TV {
+	if len(args) != len(sf.Params) {
+		c.fail("spec function %s expects %d arguments", sf.Name, len(sf.Params))
+	}
+	var leaves []Term
+	var sorts []string
+	for _, a := range args {
+		for _, l := range flatten(a.V) {
+			leaves = append(leaves, l)
+			sorts = append(sorts, l.Sort)
+		}
+	}
+	rs, rt := c.sortOfQVar(sf.Ret)
+	name := "sf$" + sanitize(pkgPath) + "$" + sf.Name
+	c.e.declareFun(name, sorts, rs)
+	if len(leaves) == 0 {
+		return TV{Sc{Term{smtSym(name), rs}}, rt}
+	}
+	return TV{Sc{app(rs, smtSym(name), leaves...)}, rt}
+}
+
+// atomicLoad models x.Load() on sync/atomic types in specs as a plain read of the cell.
+func (c *SpecCtx) atomicLoad(recv TV, method string) (TV, bool) {
+	if method != "Load" {
+		return TV{}, false
+	}
+	t := recv.T
+	if p, ok := t.Underlying().(*types.Pointer); ok {
+		t = p.Elem()
+	} else {
+		return TV{}, false
+	}
+	n, ok := t.(*types.Named)
+	if !ok || n.Obj().Pkg() == nil || n.Obj().Pkg().Path() != "sync/atomic" {
+		return TV{}, false
+	}
+	st, ok := t.Underlying().(*types.Struct)
+	if !ok {
+		return TV{}, false
+	}
+	for i := 0; i < st.NumFields(); i++ {
+		if st.Field(i).Name() == "v" {
+			l := c.e.fieldLoc(recv.V.(Sc).T, t, i)
+			v := c.e.load(c.heap, l)
+			// result type from the Load method
+			obj := lookupMethodAnyPkg(recv.T, "Load")
+			var rt types.Type = st.Field(i).Type()
+			if f, ok := obj.(*types.Func); ok {
+				rt = f.Type().(*types.Signature).Results().At(0).Type()
+			}
+			if n.Obj().Name() == "Bool" {
+				return TV{Sc{not(eq(v.(Sc).T, intLit(0)))}, mathBool}, true
+			}
+			return TV{v, rt}, true
+		}
+	}
+	return TV{}, false
 }
